@@ -98,13 +98,21 @@ def run(ctx):
             if a == "refused":
                 rep.violation("header edit refused (out of memory?) at step %d: %s" % (k, l[:300]), {"input": l, "impl": i, "names": "edit refused"}, found_input=False)
                 break
+            (ga, a), (gb, b) = (a.split("@") if "@" in a else ("", a)), (b.split("@") if "@" in b else ("", b))
+            if ga != gb:
+                rep.violation("after edit `%s` (step %d) the header getters do not read back the edited message: impl %s want %s ; %s" % (l.split(" ")[2 + k], k, ga, gb, l[:200]),
+                              {"input": l, "step": k, "impl_getters": ga, "model_getters": gb})
+                break
             if a != b:
                 check.append((idx, k, a, b))
                 break
     # disagreements: judge the implementation's bytes with the specification decoder
     sres, _ = vlib.run_lines(info["model"], ["spec1 " + a for _, _, a, _ in check] + ["spec1 " + b for _, _, _, b in check])
+    def whole(r, hx):
+        """spec verdict on the WHOLE byte string: valid and nothing left over"""
+        return r if (r.startswith("valid") and int(r.split("total=")[1].split()[0]) * 2 == len(hx)) else "invalid(" + r[:40] + ")"
     for j, (idx, k, a, b) in enumerate(check):
-        ra, rb = sres[j], sres[len(check) + j]
+        ra, rb = whole(sres[j], a), whole(sres[len(check) + j], b)
         l = lines[idx]
         op = l.split(" ")[2 + k]
         if rb.startswith("valid") and not ra.startswith("valid"):
